@@ -5,6 +5,19 @@ ROOT = os.path.dirname(os.path.abspath(__file__))
 
 # id -> dict(text, note, technique, design_ref, engine)
 CLAIMED = {
+ "C01": dict(
+    text="Lean 4 theorems gp_guarantee / gp_litmus / nested_only_outermost: inductive invariant (23 clauses, one lemma per transition) "
+         "over an explicit x86-TSO model of the two-pass phase-flip grace period of src/urcu.c, for any number of readers, any nesting, "
+         "readers (un)registering at any time, any number of grace periods, in the three configurations memb+sys_membarrier, memb "
+         "fallback and mb. Tie: the real urcu.c + static headers run unmodified under a macro shim and a deterministic cooperative "
+         "scheduler; every shared access/barrier/lock/futex event of every thread is matched against an event-level transliteration "
+         "of the C text (Driver/Gp.lean) which replays the induced labels on the proven model. TSO-only failures are reported with the "
+         "Lean-checked necessity witness (Neg/C01.lean). qsbr and bp flavors are not yet covered by this check (partial).",
+    note="Trusted: Lean kernel; x86-TSO machine and sys_membarrier contract; the event-level transliteration is validated on the "
+         "explored schedules only (not proved to refine the abstract model); harness runs are SC; compiler barriers checked for "
+         "presence only; qsbr/bp flavors not covered yet.",
+    technique="Lean 4 inductive-invariant proof on an x86-TSO transition system + event-level trace refinement of the real source under a cooperative scheduler",
+    design_ref="§4 C01, §10", engine="gp"),
  "C14": dict(
     text="Lean 4 theorems poll_sound / poll_monotone / poll_no_stuck / poll_progress (inductive invariant over all operation "
          "interleavings, any number of readers and handles) on an executable model of urcu-poll-impl.h; the model is tied to "
